@@ -213,6 +213,10 @@ func random(args []string) {
 		if filter == "trace" {
 			how = []string{"option", "env", "envcase", "default", "envbogus"}[rng.Intn(5)]
 		}
+		limit := 0
+		if wi%6 == 3 {
+			limit = 1 + rng.Intn(4) // cardinality limit: synchronous instruments, sequential histories (the order decides)
+		}
 		nr := 1 + rng.Intn(3)
 		temps := make([]string, nr)
 		for i := range temps {
@@ -224,6 +228,9 @@ func random(args []string) {
 			kind := kinds[rng.Intn(len(kinds))]
 			if i < len(kinds) && wi%3 == 0 {
 				kind = kinds[(i+wi)%len(kinds)]
+			}
+			if limit > 0 {
+				kind = kinds[rng.Intn(4)]
 			}
 			fl := rng.Intn(2) == 0
 			is := instSpec{name: fmt.Sprintf("i%d", i), kind: kind, float: fl}
@@ -242,8 +249,8 @@ func random(args []string) {
 			}
 			specs = append(specs, is)
 		}
-		guarded(res, map[string]any{"world": wi, "seed": seed, "filter": filter, "how": how, "specs": specs}, func() {
-			w := newWorld(wi, res, filter, how, temps, specs, uint64(seed)<<32|uint64(wi))
+		guarded(res, map[string]any{"world": wi, "seed": seed, "filter": filter, "how": how, "limit": limit, "specs": specs}, func() {
+			w := newWorld(wi, res, filter, how, temps, specs, uint64(seed)<<32|uint64(wi), limit)
 			pool := attrPool(rng)
 			var syncs []*instrument
 			for _, in := range w.insts {
@@ -288,7 +295,7 @@ func random(args []string) {
 						w.measure(in, m, rng.Intn(8), nil)
 					}
 					res.Count("bursts", 1)
-				case x < 76 && len(syncs) > 0:
+				case x < 76 && len(syncs) > 0 && limit == 0:
 					g := w.nextGroup() + 1_000_000
 					nb := 2 + rng.Intn(7)
 					var batch []struct {
@@ -349,6 +356,9 @@ func random(args []string) {
 				}
 				res.Count("instruments_"+in.kind, 1)
 			}
+			if limit > 0 {
+				res.Count("worlds_with_cardinality_limit", 1)
+			}
 			res.Count("worlds_filter_"+filter, 1)
 			res.Count("worlds_how_"+how, 1)
 		})
@@ -362,8 +372,64 @@ func random(args []string) {
 			res.Sample(map[string]any{"world": wi, "filter": filter, "how": how, "readers": temps, "instruments": ks})
 		}
 	}
+	directed(res, tw, seed, *n)
 	res.Count("otel_errors", otelErrors.Load())
 	res.Evaluations = res.Counters["cycles"]
 	vh.Must(tw.Close())
 	vh.Must(res.Write(*resPath))
+}
+
+// ---------------------------------------------------------------- directed edge cases ("no panic for ...")
+
+// directed runs a few scripted worlds around degenerate reservoir parameters; each is an ordinary world
+// (judged by Trace_Exemplar.tla like every other one), a panic of the SDK is reported with the case's name.
+func directed(res *vh.Result, tw *vh.TraceWriter, seed int64, base int) {
+	type dcase struct {
+		name  string
+		kind  string
+		float bool
+		res   ResCfg
+		agg   string
+		hb    []int64
+	}
+	cases := []dcase{
+		{"fixed-negative-k", "Counter", false, ResCfg{Kind: "fixed", K: -1, Bounds: []int64{}}, "sum", nil},
+		{"fixed-negative-k-histogram", "Histogram", true, ResCfg{Kind: "fixed", K: -3, Bounds: []int64{}}, "hist", []int64{4, 8}},
+		{"fixed-zero-k", "Gauge", true, ResCfg{Kind: "fixed", K: 0, Bounds: []int64{}}, "last", nil},
+		{"histogram-reservoir-no-bounds", "UpDownCounter", true, ResCfg{Kind: "hist", Bounds: []int64{}}, "sum", nil},
+		{"histogram-aggregation-no-bounds", "Histogram", true, ResCfg{Kind: "default", Bounds: []int64{}}, "hist", []int64{}},
+	}
+	for ci, c := range cases {
+		for ti, temp := range []string{"delta", "cumulative"} {
+			id := base + 10 + ci*2 + ti
+			sp := StreamSpec{Kind: c.kind, Float: c.float, Name: "d." + c.name, AggView: true,
+				Model: ModelCfg{Res: c.res, Agg: c.agg, Hb: c.hb, Keep: KeepCfg{All: true, Keys: []string{}}}}
+			if sp.Model.Hb == nil {
+				sp.Model.Hb = []int64{}
+			}
+			guarded(res, map[string]any{"directed": c.name, "temp": temp}, func() {
+				w := newWorld(id, res, "on", "option", []string{temp},
+					[]instSpec{{name: "i0", kind: c.kind, float: c.float, streams: []StreamSpec{sp}}}, uint64(seed)<<32|uint64(id), 0)
+				in := w.insts[0]
+				as := []attribute.KeyValue{attribute.String("a", "p")}
+				vals := []struct {
+					v   int64
+					cls string
+				}{{1, "fin"}, {4, "fin"}, {0, "nan"}, {9, "fin"}, {0, "pinf"}, {-3, "fin"}, {0, "ninf"}, {8, "fin"}}
+				for round := 0; round < 2; round++ {
+					for i, x := range vals {
+						if !c.float && x.cls != "fin" || c.kind == "Counter" && x.v < 0 {
+							continue
+						}
+						m := w.newMeas(as, x.v, x.cls, []string{"sampled", "none", "unsampled"}[i%3], 0)
+						m.G = m.O
+						w.measure(in, m, i, nil)
+					}
+					w.collect(0)
+				}
+				w.flush(tw)
+				res.Count("directed_worlds", 1)
+			})
+		}
+	}
 }
